@@ -132,6 +132,9 @@ func symName(n, mode int) string {
 	}
 	if mode == 1 && n >= 11 {
 		frame := []byte("oas_________gen.go")
+		for len(frame) < n { // longer names: widen the middle of the frame
+			frame = append(frame[:4], append([]byte("_"), frame[4:]...)...)
+		}
 		if n < len(frame) {
 			frame = append([]byte("oas"), []byte("_gen.go")...)
 			for len(frame) < n {
